@@ -10,6 +10,7 @@ import GocoinV.Proofs.C01Ops
 import GocoinV.Proofs.C01NoPanic
 import GocoinV.Proofs.C01Loop
 import GocoinV.Proofs.C01Wrap
+import GocoinV.Proofs.C01SigRef
 namespace GocoinV.Props.C01
 open GocoinV GocoinV.Script GocoinV.Proofs.C01
 
@@ -287,5 +288,95 @@ example (tx : TxCtx) : ∃ T : TotalOracles, TapSigHashOk T tx :=
 example : NopsOk (VER_P2SH ||| VER_DERSIG ||| VER_NULLDUMMY ||| VER_CLTV ||| VER_CSV ||| VER_WITNESS ||| VER_TAPROOT) := by
   unfold NopsOk; decide
 example : NopsOk (VER_P2SH ||| VER_BLOCK_OPS ||| VER_CLTV ||| VER_CSV) := by unfold NopsOk; decide
+
+/-! ## (viii) the signature digests of the reference side -/
+
+/-- CENTRAL THEOREM in the form the correspondence run evaluates it. The run does not hand the reference semantics the
+    digests of the tree's own sighash functions: the reference computes the legacy / BIP143 / BIP341 digest of the
+    spending transaction `F` from the specification's message (`SigRef.withRefSigHash`, Spec/ScriptSigRef.lean). For
+    every crypto instance that answers the digest queries of this input with those digests (`SigHashIsRef` — what the
+    run checks of the real functions query by query, and what property C02 proves of their model, see below), the
+    verdict of the model of `script.VerifyTxScript` on the instance is the verdict of the rules on the rules' own
+    digests: true where they raise no error, false where they raise one, never a panic. -/
+theorem script_equiv_ref_digests (T : TotalOracles) (tx : TxCtx) (pk : Bytes) (flags : Nat) (F : SigRef.FullTx)
+    (hf : ScriptSpec.FlagsOk (ScriptSpec.Flags.ofMask flags)) (hq : NopsOk flags) (hT : TapSigHashOk T tx)
+    (hR : SigHashIsRef T F tx.witness) :
+    verifyTxScript T.toOracles tx pk flags =
+      (match ScriptSpec.verifyScript (SigRef.withRefSigHash T.toOracles F tx.witness) tx pk (ScriptSpec.Flags.ofMask flags) with
+       | .ok () => .ok ()
+       | .error _ => .fail) := by
+  rw [withRef_eq T F tx.witness hR]
+  exact script_equiv T tx pk flags hf hq hT
+
+/-- The hypothesis `TapSigHashOk` of the central theorems is DISCHARGED for the reference digests: if every taproot
+    digest the instance returns is the BIP341 reference digest of `F` (for some annex), `F` is the transaction the
+    interpreter's context was cut from (same input index, same number of outputs, index in range, one spent output per
+    input) and SHA-256 never returns the empty string, then the digest is absent exactly where
+    `ScriptSpec.tapHashTypeDefined` says BIP341 defines none (hash type outside {0,1,2,3,0x81,0x82,0x83}, SIGHASH_SINGLE
+    without a matching output). -/
+theorem tapSigHashOk_of_reference (T : TotalOracles) (tx : TxCtx) (F : SigRef.FullTx) (hc : Consistent F tx)
+    (hsha : ∀ b, T.sha256 b ≠ [])
+    (h : ∀ a l c ht s, ∃ annex, T.sigHashTap a l c ht s = SigRef.tapDigest T.sha256 F annex l c ht s) :
+    TapSigHashOk T tx := by
+  intro a l csp ht scr
+  obtain ⟨annex, he⟩ := h a l csp ht scr
+  rw [he]
+  exact tapDigest_defined T.sha256 hsha F tx hc annex l csp ht scr
+
+/-- an instance with the reference digests of `F` (for the non-vacuity example) -/
+def refInstance (T0 : TotalOracles) (F : SigRef.FullTx) (w : List Bytes) : TotalOracles :=
+  { T0 with
+    sigHashLegacy := fun sc ht => (SigRef.legacyDigest T0.hash256 F sc ht).getD []
+    sigHashWitV0 := fun sc ht => (SigRef.witV0Digest T0.hash256 F sc ht).getD []
+    sigHashTap := fun _ l c h s => SigRef.tapDigest T0.sha256 F (SigRef.annexOf w) l c h s }
+
+/-- non-vacuity, jointly: for every consistent (F, tx) and hash function without empty outputs there is an instance
+    satisfying BOTH `SigHashIsRef` and `TapSigHashOk` (the hypotheses of `script_equiv_ref_digests`) … -/
+example (T0 : TotalOracles) (tx : TxCtx) (F : SigRef.FullTx) (hc : Consistent F tx) (hsha : ∀ b, T0.sha256 b ≠ []) :
+    SigHashIsRef (refInstance T0 F tx.witness) F tx.witness ∧ TapSigHashOk (refInstance T0 F tx.witness) tx := by
+  refine ⟨⟨?_, ?_, ?_⟩, ?_⟩
+  · intro sc ht d h
+    have h' : SigRef.legacyDigest T0.hash256 F sc ht = some d := h
+    show (SigRef.legacyDigest T0.hash256 F sc ht).getD [] = d
+    rw [h']; rfl
+  · intro sc ht d h
+    have h' : SigRef.witV0Digest T0.hash256 F sc ht = some d := h
+    show (SigRef.witV0Digest T0.hash256 F sc ht).getD [] = d
+    rw [h']; rfl
+  · intro l c h s; rfl
+  · exact tapSigHashOk_of_reference _ tx F hc hsha (fun a l c ht s => ⟨SigRef.annexOf tx.witness, rfl⟩)
+/-- … and a consistent pair exists (two inputs, one output, second input under verification) -/
+example : Consistent ⟨Props.C02.exTx, Props.C02.exSpent, 1⟩
+    { version := 2, lockTime := 7, sequence := 5, idx := 1, nOuts := 1, sigScript := [], witness := [] } :=
+  ⟨rfl, rfl, by decide, rfl⟩
+
+/-- Property C02's model of `Tx.WitnessSigHash` (every cache state reachable on the transaction object) returns the
+    BIP143 reference digest — for EVERY 32-bit hash type: NONE / SINGLE are selected by `hashType & 0x1f`, every other
+    value hashes all sequences and all outputs. -/
+theorem sighash_model_is_reference_witv0 (H : Bytes → Bytes) (F : SigRef.FullTx) (hi : F.idx < F.tx.ins.length)
+    (c : SigHash.Cache) (hc : SigHash.Cache.OK H F.tx F.spent c) (sc : Bytes) (ht : Nat) :
+    (SigHash.witnessSigHash H F.tx c sc F.amount F.idx ht).1.digest? = SigRef.witV0Digest (fun b => H (H b)) F sc ht :=
+  c02_witV0_is_ref H F hi c hc sc ht
+
+/-- Property C02's model of `Tx.SignatureHash` returns the reference digest of the original algorithm wherever that
+    algorithm defines one (index in range, script code that decodes). -/
+theorem sighash_model_is_reference_legacy (H : Bytes → Bytes) (F : SigRef.FullTx) (sc : Bytes) (ht : Nat) (d : Bytes)
+    (h : SigRef.legacyDigest (fun b => H (H b)) F sc ht = some d) :
+    (SigHash.signatureHash H F.tx sc F.idx ht).digest? = some d :=
+  c02_legacy_is_ref H F sc ht d h
+
+/-- Property C02's model of `Tx.TaprootSigHash` (as fixed: nil where BIP341 defines no message), called with the
+    execution data the interpreter passes (annex hash, leaf hash, code separator position; key path or script path),
+    returns the BIP341 reference digest, and no digest (`[]`) exactly where the reference has none. -/
+theorem sighash_model_is_reference_taproot (H : Bytes → Bytes) (F : SigRef.FullTx)
+    (hs : F.spent.length = F.tx.ins.length) (hi : F.idx < F.tx.ins.length) (c : SigHash.Cache)
+    (hc : SigHash.Cache.OK H F.tx F.spent c) (annex : Option Bytes) (l : Bytes) (cs ht : Nat) (s : Bool) :
+    ((SigHash.taprootSigHash true H F.tx F.spent c
+        { annexHash := annex.map (SigRef.annexHash H), tapleafHash := l, codesepPos := cs } F.idx ht s).1.digest?).getD []
+      = SigRef.tapDigest H F annex l cs ht s :=
+  c02_tap_is_ref H F hs hi c hc annex l cs ht s
+/-- non-vacuity: the empty cache is a reachable cache state, and the legacy reference is defined on a concrete input -/
+example (H : Bytes → Bytes) (F : SigRef.FullTx) : SigHash.Cache.OK H F.tx F.spent {} := SigHash.Cache.OK_empty H F.tx F.spent
+example : ∃ d, SigRef.legacyDigest (fun b => b) ⟨Props.C02.exTx, Props.C02.exSpent, 1⟩ [0x51] 3 = some d := ⟨_, rfl⟩
 
 end GocoinV.Props.C01
